@@ -13,7 +13,7 @@ use serde_json::{json, Value};
 use std::collections::{BTreeMap, HashSet};
 
 pub const PATHS: &[&str] = &["/a", "/A", "/a b", "/a%20b", "/é", "/a\"q", "/a<b>", "/a+b", "/a{b}", "/a`b", "/a|c"];
-pub const PARAMS: &[&str] = &["a=1", "b=2", "a=3", "c=", "d", "e=x%20y", "f=x+y", "g=é", "utm_source=z", "ref=r", "B=2", "h=1%2B2", "i=x%26", "é=1", "z=9", "a2=5", "hsCta=t"];
+pub const PARAMS: &[&str] = &["a=1", "b=2", "a=3", "c=", "d", "e=x%20y", "f=x+y", "g=é", "utm_source=z", "ref=r", "B=2", "h=1%2B2", "i=x%26", "é=1", "z=9", "a2=5", "hsCta=t", "="];
 
 #[derive(Clone, Debug, serde::Serialize, serde::Deserialize)]
 pub struct Case {
@@ -122,7 +122,10 @@ fn url_class(rc: &RouterConfig, params: &[String]) -> String {
     if params.iter().any(|p| p.contains('+')) {
         f.push("plus-in-query");
     }
-    if params.iter().any(|p| p.ends_with('=')) {
+    if params.iter().any(|p| key_of(p).is_empty()) {
+        f.push("empty-name");
+    }
+    if params.iter().any(|p| p.ends_with('=') && !key_of(p).is_empty()) {
         f.push("empty-value");
     }
     if params.iter().any(|p| !p.is_ascii()) {
@@ -291,6 +294,10 @@ pub fn check_case(case: &Case) -> Vec<(String, String)> {
         let mut others: Vec<(String, &str)> = Vec::new();
         for i in 0..case.params.len() {
             if rc.ignore_marketing_query_params && is_marketing(&rc, &case.params[i]) {
+                continue;
+            }
+            // a parameter with neither name nor value ("=") carries nothing: a URL without it is not held to be a different URL
+            if case.params[i] == "=" {
                 continue;
             }
             let mut dropped = case.params.clone();
